@@ -23,7 +23,7 @@ var registerOnce sync.Once
 // Fault is one injected transient failure of the tier1 -> tier2 call.
 type Fault struct {
 	Call  int    `json:"call"`  // n-th ProcessRange call of the request (0-based)
-	Kind  string `json:"kind"`  // before | overloaded | drop-mid | drop-mid-canceled | drop-after-done
+	Kind  string `json:"kind"`  // before | header | overloaded | drop-mid | drop-mid-canceled | drop-after-done
 	After int    `json:"after"` // drop-mid: messages forwarded before the drop
 }
 
@@ -51,9 +51,10 @@ type pipeMsg struct {
 }
 
 type clientStream struct {
-	ctx    context.Context
-	ch     chan pipeMsg
-	cancel context.CancelFunc
+	ctx       context.Context
+	ch        chan pipeMsg
+	cancel    context.CancelFunc
+	headerErr error // the call failed while the stream was set up: the header never arrives
 }
 
 func (c *clientStream) Recv() (*pbssinternal.ProcessRangeResponse, error) {
@@ -67,7 +68,12 @@ func (c *clientStream) Recv() (*pbssinternal.ProcessRangeResponse, error) {
 		return nil, status.FromContextError(c.ctx.Err()).Err()
 	}
 }
-func (c *clientStream) Header() (metadata.MD, error) { return metadata.MD{}, nil }
+func (c *clientStream) Header() (metadata.MD, error) {
+	if c.headerErr != nil {
+		return nil, c.headerErr
+	}
+	return metadata.MD{}, nil
+}
 func (c *clientStream) Trailer() metadata.MD         { return metadata.MD{} }
 func (c *clientStream) CloseSend() error             { c.cancel(); return nil }
 func (c *clientStream) Context() context.Context     { return c.ctx }
@@ -102,6 +108,14 @@ func (f *fakeClient) ProcessRange(ctx context.Context, in *pbssinternal.ProcessR
 	cliCtx, cliCancel := context.WithCancel(ctx)
 	ch := make(chan pipeMsg, 64)
 	cs := &clientStream{ctx: cliCtx, ch: ch, cancel: func() { cliCancel(); srvCancel() }}
+	if fault != nil && fault.Kind == "header" {
+		// with real gRPC a server-streaming call returns a stream at once; an unreachable or refusing server shows up
+		// when the header is awaited, and again on the first Recv
+		cs.headerErr = status.Error(codes.Unavailable, "connection error: no header (injected)")
+		ch <- pipeMsg{err: cs.headerErr}
+		close(ch)
+		return cs, nil
+	}
 	if fault != nil && fault.Kind == "overloaded" {
 		ch <- pipeMsg{err: status.Error(codes.Unavailable, "service currently overloaded")}
 		close(ch)
